@@ -98,6 +98,7 @@ def make_cfg(seed, prop, tier):
         "undo_p": prof.get("undo_p", rng.choice([0.0, 0.05, 0.12])),
         "pull_p": rng.choice([0.02, 0.08]),
         "anchor_p": 0.03,
+        "inspect_p": 0.25 if prop == "C10" else rng.choice([0.0, 0.05]),
         "move_p": 0.6 if prof.get("spread") else rng.choice([0.2, 0.4]),
         "probe17": bool(prof.get("probe17")),
         "fault_kinds": sorted(enabled),
